@@ -49,7 +49,8 @@ def run_time(ctx, replay, key, mode, mc_quick, mc_thorough, rule, assumptions):
     else:
         # 1. design level
         for cfg in (mc_thorough if ctx.thorough() else mc_quick):
-            ctx.tlc_mc("TimeTrack_MC", cfg, timeout=1500)
+            # the three-constellation configuration has ~2*10^8 transitions: no coverage instrumentation for it
+            ctx.tlc_mc("TimeTrack_MC", cfg, timeout=1700, coverage=False if "ggg" in cfg else None)
         # 2. direction B: behaviours from the model (random + the counterexamples of the as-found deviations)
         beh = []
         for cfg in ("TimeTrack_Sim_found_lose.cfg", "TimeTrack_Sim_found_gal.cfg", "TimeTrack_Sim_found_init.cfg"):
